@@ -271,6 +271,8 @@ def classify_raw_vs_opt(meta, diffs):
 
 def check_C20(ctx):
     from . import props
+    from .tgen import tie_tgen
+    tie_tgen(ctx, ctx.tier, ctx.seed)      # structural tie of the emitted module vs Model.Gen / GenOpts for four option sets
     ctx.rule_text = ("corpus = hand-written (mutually) recursive grammars + probes around the optimizer passes + systematic feature grammars + "
                      "seeded random grammars (plain / stack-heavy / recursive / multi-byte, and a second batch of recursive ones), each compiled "
                      "under every option set of the tier (quick: default, all-on, pest_optimizer=false, 2 seeded combinations; thorough: all 16 "
